@@ -325,9 +325,10 @@ func AllStacks() string {
 type Distinct struct {
 	mu sync.Mutex
 	m  map[string]struct{}
+	h  map[uint64]struct{} // AddHash entries: 64-bit digests only (tens of millions of them in thorough runs)
 }
 
-func NewDistinct() *Distinct { return &Distinct{m: map[string]struct{}{}} }
+func NewDistinct() *Distinct { return &Distinct{m: map[string]struct{}{}, h: map[uint64]struct{}{}} }
 
 func (d *Distinct) Add(s string) {
 	d.mu.Lock()
@@ -337,13 +338,19 @@ func (d *Distinct) Add(s string) {
 
 func (d *Distinct) AddHash(b []byte) {
 	h := sha256.Sum256(b)
-	d.Add(string(h[:8]))
+	var k uint64
+	for i := 0; i < 8; i++ {
+		k = k<<8 | uint64(h[i])
+	}
+	d.mu.Lock()
+	d.h[k] = struct{}{}
+	d.mu.Unlock()
 }
 
 func (d *Distinct) Len() int {
 	d.mu.Lock()
 	defer d.mu.Unlock()
-	return len(d.m)
+	return len(d.m) + len(d.h)
 }
 
 func (d *Distinct) Keys() []string {
